@@ -459,6 +459,13 @@ def _ext_call(ev, dotted, args, kwargs, fr, node):
                             items = sorted(items, key=lambda c: c[1], reverse=bool(rev[1]))
                         except TypeError:
                             return T.raw_op('SORTED', args[0], rev)
+                    elif T.is_const(rev) and all(T.tag(i) == 'tuple' and i[1] and T.is_const(i[1][0]) for i in items) \
+                            and len({i[1][0] for i in items}) == len(items):
+                        # tuples with distinct constant first elements (items of a table with constant keys): ordered by those
+                        try:
+                            items = sorted(items, key=lambda c: c[1][0][1], reverse=bool(rev[1]))
+                        except TypeError:
+                            return T.raw_op('SORTED', args[0], rev)
                     else:
                         return T.raw_op('SORTED', args[0], rev)
                 return T.tup(items) if short == 'tuple' else T.lst(items)
